@@ -24,7 +24,7 @@ from ..gvn import Frame, Obj, PW, Vec, cases_of, veq, Unsupported, vkey
 from ..intervals import single_atom
 from . import rdp_model as rm
 from .c01 import _ascending
-from .common import section, RuleCtx, _short, split_at_loop, sign_set_name
+from .common import section, log_only_local, RuleCtx, _short, split_at_loop, sign_set_name
 
 C = Rat.const
 ORDERS = ["triangle", "area", "segment"]
@@ -136,6 +136,8 @@ def _align(rc: RuleCtx, mf: rm.LoopModel, mg: rm.LoopModel, oname: str):
                 continue
             if e.kind == "aug" and e.target == "length":
                 continue
+            if e.kind == "aug" and log_only_local(m.fi, e.target):
+                continue            # a counter that only feeds a debug message
             if e.kind == "sort" and e.target == m.retained:
                 continue
             if e.kind == "call" and e.target == "evaluation.compute_global_cost":
